@@ -204,7 +204,7 @@ func runC17(c *Ctx) {
 	hAdd := P.Field("target", "Handler", "Add")
 	hUpd := P.Field("target", "Handler", "Update")
 	hDel := P.Field("target", "Handler", "Delete")
-	for n, ok := range map[string]bool{"(*Config).Load": Load != nil, "(*Config).checkRevision": chk != nil, "(*Config).handleDiffs": hd != nil, "Validate": val != nil, "(*Config).Current": cur != nil,
+	for n, ok := range map[string]bool{"(*Config).Load": Load != nil, "(*Config).handleDiffs": hd != nil, "Validate": val != nil, "(*Config).Current": cur != nil,
 		"Config.configuration": fCfg != nil, "Config.mu": fMu != nil, "Handler.Add": hAdd != nil, "Handler.Update": hUpd != nil, "Handler.Delete": hDel != nil} {
 		if !ok {
 			c.Unresolved("C17.anchors", "target."+n)
@@ -241,38 +241,67 @@ func runC17(c *Ctx) {
 	}
 	isHandler := func(ev *Ev) bool { return handlerOf(ev) != nil }
 
-	// ---- gate
+	// ---- gate and revision table, both evaluated from Load with the revision check entered (whatever helper holds it)
 	{
 		c.Analysed(fnName(Load))
+		if chk != nil {
+			c.Analysed(fnName(chk))
+		}
 		cls := func(e *PPA, st *State, rv RV) string {
 			rv = e.Resolve(st, rv)
+			revOf := func(recv RV) string {
+				rr := e.Resolve(st, recv)
+				if loadOfField(rr.V, fCfg) {
+					return "CURREV"
+				}
+				r := rootOf(e, st, recv)
+				if p, ok := r.V.(*ssa.Parameter); ok && isNamed(p.Type(), "proto/target", "Configuration") {
+					return "NEWREV"
+				}
+				return ""
+			}
 			switch v := rv.V.(type) {
 			case *ssa.Parameter:
 				if v.Parent() == Load && isNamed(v.Type(), "proto/target", "Configuration") {
 					return "CFG"
 				}
+			case *ssa.UnOp:
+				if v.Op == token.MUL {
+					if loadOfField(v, fCfg) {
+						return "CUR"
+					}
+					if fa, ok := v.X.(*ssa.FieldAddr); ok && fieldOf(v.X) == fRev {
+						return revOf(RV{rv.F, fa.X})
+					}
+				}
 			case *ssa.Call:
-				switch staticCallee(&v.Call) {
-				case val:
+				if staticCallee(&v.Call) == val {
 					return "VERR"
-				case chk:
-					return "RERR"
+				}
+				if calleeName(&v.Call) == "(*proto/target.Configuration).GetRevision" {
+					return revOf(RV{rv.F, v.Call.Args[0]})
 				}
 			}
 			return ""
 		}
 		for _, sc := range []struct {
 			name string
+			rule string
 			b    map[string]bool
+			rel  int
 			ok   bool
 		}{
-			{"nil configuration", map[string]bool{"CFG": false}, false},
-			{"invalid configuration", map[string]bool{"CFG": true, "VERR": true}, false},
-			{"revision refused", map[string]bool{"CFG": true, "VERR": false, "RERR": true}, false},
-			{"accepted", map[string]bool{"CFG": true, "VERR": false, "RERR": false}, true},
+			{"nil configuration", "C17.gate", map[string]bool{"CFG": false}, 0, false},
+			{"invalid configuration", "C17.gate", map[string]bool{"CFG": true, "VERR": true}, 0, false},
+			{"first load", "C17.revision", map[string]bool{"CFG": true, "VERR": false, "CUR": false}, 0, true},
+			{"new < current", "C17.revision", map[string]bool{"CFG": true, "VERR": false, "CUR": true}, -1, false},
+			{"new = current", "C17.revision", map[string]bool{"CFG": true, "VERR": false, "CUR": true}, 0, false},
+			{"new > current", "C17.revision", map[string]bool{"CFG": true, "VERR": false, "CUR": true}, 1, true},
 		} {
-			at := &Atoms{Class: cls, Bool: sc.b}
-			e := &PPA{Cond: at.Cond, Inline: func(fr *Frame, call ssa.CallInstruction, callee *ssa.Function) bool { return callee.Parent() == Load },
+			at := &Atoms{Class: cls, Bool: sc.b, Rel: map[[2]string]int{{"NEWREV", "CURREV"}: sc.rel}}
+			e := &PPA{Cond: at.Cond, Inline: func(fr *Frame, call ssa.CallInstruction, callee *ssa.Function) bool {
+				return callee.Parent() == Load || (chk != nil && callee == chk)
+			},
 				Watch: func(ev *Ev) bool {
 					return isLockOp(ev) || isHandler(ev) || ev.Label == "call:"+fnName(hd) || ev.Label == "store:target.Config.configuration"
 				}}
@@ -287,7 +316,7 @@ func runC17(c *Ctx) {
 				if len(p.Rets) == 1 {
 					rc = retClass(p.Rets[0])
 					// `return err` with err the result of a check the scenario makes succeed is a nil return
-					if sc.ok && (rc == "call:"+fnName(chk) || rc == "call:"+fnName(val)) {
+					if sc.ok && rc == "call:"+fnName(val) {
 						rc = "nil"
 					}
 				}
@@ -295,81 +324,26 @@ func runC17(c *Ctx) {
 				si := p.Index(0, lbl("store:target.Config.configuration"))
 				if !sc.ok {
 					ok := rc != "nil" && rc != "" && di < 0 && si < 0 && !p.Has(isHandler)
-					c.Check(ok, "C17.gate", fnName(Load), sc.name, P.Pos(Load.Pos()), "returns "+rc+"; path: "+p.String())
+					c.Check(ok, sc.rule, fnName(Load), sc.name+": refused (error, no diff, no store)", P.Pos(Load.Pos()), "returns "+rc+"; path: "+p.String())
 					continue
 				}
 				li := p.Index(0, func(ev *Ev) bool { return ev.Label == "call:(*sync.Mutex).Lock" && ev.Field == fMu })
 				ui := p.Index(li+1, func(ev *Ev) bool { return ev.Label == "call:(*sync.Mutex).Unlock" && ev.Field == fMu })
-				cfgArg := di >= 0 && len(p.Trace[di].Args) == 2 && p.Trace[di].Args[1].V == ssa.Value(param(Load, 1))
+				cfgArg := false
+				if di >= 0 {
+					// the new configuration is handed to the diff (as the reference parameter 1; an extra "previous" parameter may accompany it)
+					for _, a := range p.Trace[di].Args[1:] {
+						if a.V == ssa.Value(param(Load, 1)) {
+							cfgArg = true
+						}
+					}
+				}
 				stored := si >= 0 && p.Trace[si].Args[1].V == ssa.Value(param(Load, 1))
 				ok := rc == "nil" && li >= 0 && li < di && di < si && si < ui && cfgArg && stored &&
 					p.Count(func(ev *Ev) bool { return ev.Label == "call:(*sync.Mutex).Lock" }) == 1
-				c.Check(ok, "C17.gate", fnName(Load), sc.name, P.Pos(Load.Pos()), fmt.Sprintf("lock@%d diff@%d store@%d unlock@%d returns %s; path: %s", li, di, si, ui, rc, p.String()))
+				c.Check(ok, sc.rule, fnName(Load), sc.name+": accepted (lock, diff, store, unlock, nil)", P.Pos(Load.Pos()), fmt.Sprintf("lock@%d diff@%d store@%d unlock@%d returns %s; path: %s", li, di, si, ui, rc, p.String()))
 			}
-			c.Floor("C17.gate/"+sc.name, n, 1)
-		}
-	}
-	// ---- revision
-	{
-		c.Analysed(fnName(chk))
-		cls := func(e *PPA, st *State, rv RV) string {
-			rv = e.Resolve(st, rv)
-			revOf := func(recv RV) string {
-				r := rootOf(e, st, recv)
-				if p, ok := r.V.(*ssa.Parameter); ok && p.Parent() == chk && isNamed(p.Type(), "proto/target", "Configuration") {
-					return "NEWREV"
-				}
-				// c.configuration.…
-				rr := e.Resolve(st, recv)
-				if loadOfField(rr.V, fCfg) {
-					return "CURREV"
-				}
-				return ""
-			}
-			switch v := rv.V.(type) {
-			case *ssa.UnOp:
-				if v.Op == token.MUL {
-					if loadOfField(v, fCfg) {
-						return "CUR"
-					}
-					if fieldOf(v.X) == fRev {
-						return revOf(RV{rv.F, v.X.(*ssa.FieldAddr).X})
-					}
-				}
-			case *ssa.Call:
-				if calleeName(&v.Call) == "(*proto/target.Configuration).GetRevision" {
-					return revOf(RV{rv.F, v.Call.Args[0]})
-				}
-			}
-			return ""
-		}
-		for _, sc := range []struct {
-			name string
-			cur  bool
-			rel  int
-			ok   bool
-		}{
-			{"first load", false, 0, true},
-			{"new < current", true, -1, false},
-			{"new = current", true, 0, false},
-			{"new > current", true, 1, true},
-		} {
-			at := &Atoms{Class: cls, Bool: map[string]bool{"CUR": sc.cur}, Rel: map[[2]string]int{{"NEWREV", "CURREV"}: sc.rel}}
-			e := &PPA{Cond: at.Cond}
-			e.Run(chk)
-			c.Paths += len(e.Paths)
-			c.Scen++
-			n := 0
-			for i := range e.Paths {
-				p := &e.Paths[i]
-				n++
-				rc := ""
-				if len(p.Rets) == 1 {
-					rc = retClass(p.Rets[0])
-				}
-				c.Check((rc == "nil") == sc.ok && rc != "", "C17.revision", fnName(chk), sc.name, P.Pos(chk.Pos()), "returns "+rc)
-			}
-			c.Check(n == 1, "C17.revision", fnName(chk), sc.name+" (decided)", P.Pos(chk.Pos()), fmt.Sprintf("%d paths under this scenario (1 = all comparisons folded)", n))
+			c.Check(n == 1, sc.rule, fnName(Load), sc.name+" (decided)", P.Pos(Load.Pos()), fmt.Sprintf("%d paths under this scenario (1 = all comparisons folded)", n))
 		}
 	}
 	// ---- classify
